@@ -6,7 +6,7 @@ import os
 import random
 import time
 
-from vlib import (validate_split, InfraError, Raw, build, copy_specs, covering_walks, execution_slice, label_line, log, parse_counts,
+from vlib import (pair_walks, validate_split, InfraError, Raw, build, copy_specs, covering_walks, execution_slice, label_line, log, parse_counts,
                   parse_export, pmap, read_lines, run, shortest_paths, tlc, validate, workdir, write_mc, HARNESS)
 
 BIG = 2000000000
@@ -107,10 +107,21 @@ def mc_export(base, model, params, name):
                 f.write(label_line(edges[ei]['l']) + '\n')
                 nsteps += 1
             f.write('reset\n')
+    npairs = 0
+    if params.get('Pairs'):
+        first_ops, second_ops = params['Pairs']
+        pw = pair_walks(edges, init, lambda l: l['op'] in first_ops, lambda l: second_ops is None or l['op'] in second_ops, key=key_fn)
+        with open(script, 'a') as f:
+            for w in pw:
+                for ei in w:
+                    f.write(label_line(edges[ei]['l']) + '\n')
+                    nsteps += 1
+                f.write('reset\n')
+        npairs = len(pw)
     import pickle
     with open(os.path.join(d, 'edges.pickle'), 'wb') as f:
         pickle.dump([(key_fn(e['f']), e['l'], key_fn(e['t'])) for e in edges], f)
-    info = dict(states=counts[1], transitions=len(edges), generated=counts[0], walks=len(walks), steps=nsteps,
+    info = dict(states=counts[1], transitions=len(edges), generated=counts[0], walks=len(walks), steps=nsteps, pairs=npairs,
                 ops=ops, wall=dt, params=params, model=model,
                 sample_walk=[edges[i]['l'] for i in walks[0][:12]] if walks else [])
     os.remove(outp)
